@@ -105,7 +105,9 @@ pub fn run_policy(ctx: &mut Ctx, scn: &StoreScn) {
     // first tick can come at once)
     let predicate = !never && d.stats.iter().any(|st| st.dead_bytes > cfg.trig_dead || frag(st.dead_keys, st.live_keys) > cfg.trig_frag);
     let interval_ns = cfg.check_interval_ms * 1_000_000;
-    let bound_ns = (interval_ns as f64 * (1.0 + cfg.jitter)).ceil() as u64 + 1_000;
+    // "plus scheduling slack": what the simulator itself adds, i.e. how late its timers fire
+    let late_ns = ctx.sim.cfg.timer_late_max_ns;
+    let bound_ns = (interval_ns as f64 * (1.0 + cfg.jitter)).ceil() as u64 + 1_000 + 3 * late_ns;
     // no client action from here on: only let time pass
     let span = 3 * bound_ns + 5_000_000;
     // in half of the runs whose trigger is exceeded the second burst of writes (below) comes
@@ -344,7 +346,7 @@ fn check_sync_obligations(ctx: &mut Ctx, seq_open: u64, dms: u64, clients: &[usi
         if w > 0 {
             ctx.sim.probe("sync_tick_waited_for_writer_or_disk");
         }
-        if gap > dn + w + 1_000 {
+        if gap > dn + w + 1_000 + 4 * ctx.sim.cfg.timer_late_max_ns {
             let name = fsim::with_fs(ctx.sim, |fs| fs.path_name(*wpath).to_string());
             ctx.viol(
                 "sync-gap",
